@@ -459,7 +459,8 @@ def table(pid, tier):
             ([] if q else [chan(tier, "latest", 1, True), chan(tier, "block", 2, False), chan(tier, "oldest", 2, True)])
         inv = ["C10_OwnThread", "C10_Stream", "C10_Flush", "C10_NoStall", "C05_Bound"]
         T = dict(mc=[(i, inv, []) for i in insts], gen=[(i, 700 if q else 10000) for i in insts[:3]],
-                 free=[(i, 60 if q else 500) for i in insts])
+                 free=[(i, 60 if q else 500) for i in insts],
+                 live=[(insts[0], ["Live_ClientsDone", "Live_StopReturns"])])      # unsubscribe() and stop() return
     elif pid == "C11":
         insts = [effects(tier, 0), effects(tier, 4), effects(tier, 5), effects(tier, 1), effects(tier, 3)] + \
             ([] if q else [effects(tier, 2)])
@@ -482,7 +483,8 @@ def table(pid, tier):
         insts = [iterator(tier, False), iterator(tier, True)]
         inv = ["C14_Stream", "C14_Detached", "C13_NoDeadlock"]
         T = dict(mc=[(i, inv, []) for i in insts], gen=[(i, 800 if q else 20000) for i in insts],
-                 free=[(i, 100 if q else 1000) for i in insts])
+                 free=[(i, 100 if q else 1000) for i in insts],
+                 live=[(i, ["Live_ClientsDone"]) for i in insts])      # the consumer's next() always returns
     elif pid == "C15":
         insts = [stop_race(tier, "block", 3), stop_race(tier, "block", 4)] + \
             ([] if q else [stop_race(tier, "oldest", 3), stop_race(tier, "block", 5)])
